@@ -134,7 +134,7 @@ def instructions(ctx) -> None:
         ctx.rep.check(whole, "C14.whole-uL", c + "/rounding", f"transfer volumes are {rounding}(...) = whole microlitres", f"{kind} transfer volumes `{show(v)[:70]}` are not rounded to whole microlitres", where=w)
         # dominated by all(v >= min_transfer) on the very vector that is appended
         ok_min = False
-        for r, pol, raw in fv.rfacts_at(cs.node):
+        for r, pol, br in fv.atoms_at(cs.node):
             if isinstance(r, ast.Call) and call_fname(r) == "all" and pol and r.args and isinstance(r.args[0], ast.Compare) and len(r.args[0].ops) == 1:
                 inner = r.args[0]
                 if key(inner.left) == key(v) and isinstance(inner.ops[0], ast.GtE) and is_name(inner.comparators[0], "min_transfer"):
@@ -142,7 +142,7 @@ def instructions(ctx) -> None:
         ctx.rep.check(ok_min, "C14.min-transfer", c + "/min", "the appended volumes satisfy all(v >= min_transfer)", f"the {kind} instruction is appended without all(<these volumes> >= min_transfer) being established", where=w)
         # the achieved concentrations grow together with the instructions
         blk = [x for x in fv.calls() if isinstance(x.call.func, ast.Attribute) and x.call.func.attr == "append" and is_name(x.call.func.value, targets_name)
-               and set(fv.controlling(x.node)) == set(fv.controlling(cs.node)) and fv.cfg.enclosing_loops(x.node) == fv.cfg.enclosing_loops(cs.node)]
+               and {(key(r), p) for r, p, br in fv.atoms_at(x.node)} == {(key(r), p) for r, p, br in fv.atoms_at(cs.node)} and fv.cfg.enclosing_loops(x.node) == fv.cfg.enclosing_loops(cs.node)]
         ctx.rep.check(len(blk) == 1, "C14.earlier-source", c + "/parallel-lists", "instructions and actual_targets grow together", "the instruction is appended without its achieved concentrations (or vice versa): later lookups by column index are misaligned", where=w)
         if kind == "serial":
             src = fv.res.resolve(src_e, cs.node)
@@ -159,18 +159,40 @@ def instructions(ctx) -> None:
             # budget: guard all(v <= remaining[src]) and update remaining[src] = remaining[src] - v
             ok_budget = False
             rem_name = None
-            for r, pol, raw in fv.rfacts_at(cs.node):
+            src_loop = src.args[0].value if is_sym(src, "elem") and isinstance(src.args[0], ast.Constant) else None
+
+            def rem_of(t):
+                """remaining[src]  (or its index-loop form §elem(loop of src, remaining)) -> name of the list"""
+                base = None
+                if isinstance(t, ast.Subscript) and key(t.slice) == key(src):
+                    base = t.value
+                elif is_sym(t, "elem") and isinstance(t.args[0], ast.Constant) and t.args[0].value == src_loop:
+                    base = t.args[1]
+                if base is None:
+                    return None
+                if is_sym(base, "mut"):
+                    return base.args[0].value
+                return base.id if isinstance(base, ast.Name) else None
+
+            for r, pol, br in fv.atoms_at(cs.node):
                 if isinstance(r, ast.Call) and call_fname(r) == "all" and pol and r.args and isinstance(r.args[0], ast.Compare) and len(r.args[0].ops) == 1:
                     inner = r.args[0]
-                    if key(inner.left) == key(v) and isinstance(inner.ops[0], ast.LtE) and isinstance(inner.comparators[0], ast.Subscript) and key(inner.comparators[0].slice) == key(src):
+                    if key(inner.left) == key(v) and isinstance(inner.ops[0], ast.LtE) and rem_of(inner.comparators[0]) is not None:
                         ok_budget = True
-                        rem_raw = raw.args[0].comparators[0]
-                        rem_name = rem_raw.value.id if isinstance(rem_raw, ast.Subscript) and isinstance(rem_raw.value, ast.Name) else None
+                        rem_name = rem_of(inner.comparators[0])
+                    elif key(inner.comparators[0]) == key(v) and isinstance(inner.ops[0], ast.GtE) and rem_of(inner.left) is not None:
+                        ok_budget = True
+                        rem_name = rem_of(inner.left)
             ctx.rep.check(ok_budget, "C14.budget", c + "/guard", "every draw is dominated by all(v <= remaining volume of the source column)",
                           "no test compares the drawn volumes with what the chosen source column still holds: several columns can be prepared from one source column beyond its content", where=w)
             if ok_budget and rem_name:
-                upd = [n for n in fv.cfg.nodes if n.kind == "stmt" and isinstance(n.ast, (ast.Assign, ast.AugAssign)) and isinstance((n.ast.targets[0] if isinstance(n.ast, ast.Assign) else n.ast.target), ast.Subscript)
-                       and is_name((n.ast.targets[0] if isinstance(n.ast, ast.Assign) else n.ast.target).value, rem_name) and set(fv.controlling(n.id)) == set(fv.controlling(cs.node))]
+                here = {(key(r), p) for r, p, br in fv.atoms_at(cs.node)}
+                upd = []
+                for n in fv.cfg.nodes:
+                    if n.kind == "stmt" and isinstance(n.ast, (ast.Assign, ast.AugAssign)):
+                        tg = n.ast.targets[0] if isinstance(n.ast, ast.Assign) else n.ast.target
+                        if isinstance(tg, ast.Subscript) and is_name(tg.value, rem_name) and {(key(r), p) for r, p, br in fv.atoms_at(n.id)} == here and fv.cfg.enclosing_loops(n.id) == fv.cfg.enclosing_loops(cs.node):
+                            upd.append(n)
                 ok_upd = False
                 detail = f"`{rem_name}[src]` is not updated after the draw"
                 if len(upd) == 1:
@@ -187,7 +209,11 @@ def instructions(ctx) -> None:
                         detail = f"`{stmt_key(u)[:70]}` does not subtract the draw from the previous remaining volume of the same column: earlier draws are forgotten"
                 ctx.rep.check(ok_upd, "C14.budget", c + "/update", "remaining[src] = remaining[src] - draw", detail, where=f.where(upd[0].ast) if upd else w)
                 news = [x for x in fv.calls() if isinstance(x.call.func, ast.Attribute) and x.call.func.attr == "append" and is_name(x.call.func.value, rem_name)]
-                per_block = all(any(set(fv.controlling(x.node)) == set(fv.controlling(a.node)) for x in news) for a in apps)
+
+                def same_block(x, a_):
+                    return {(key(r), p) for r, p, br in fv.atoms_at(x.node)} == {(key(r), p) for r, p, br in fv.atoms_at(a_.node)} and fv.cfg.enclosing_loops(x.node) == fv.cfg.enclosing_loops(a_.node)
+
+                per_block = all(any(same_block(x, a_) for x in news) for a_ in apps)
                 ctx.rep.check(per_block, "C14.budget", f"{f.qualname}/remaining-init", "every planned column gets its own remaining-volume entry", "a planned column gets no remaining-volume entry: the budget list is misaligned with the instructions", where=w)
 
 
